@@ -282,6 +282,39 @@ def report_and_exit(pid, tier, seed, level, agg, t0, floors, rule, assumptions, 
         sys.exit(2)
     sys.exit(0)
 
+def gcov_coverage(bdir, progs, seed, tier, max_random=20000):
+    """Reach evidence: replay (part of) each program's workload on a gcov build of cat.c; union of executed lines."""
+    gdir = os.path.join(bdir, 'gcov'); os.makedirs(gdir, exist_ok=True)
+    def one(pe):
+        prog, q, extra = pe
+        d = os.path.join(gdir, '%s-q%d' % (prog, q)); os.makedirs(d, exist_ok=True)
+        out = os.path.join(d, 'chk')
+        cmd = compiler_cmd('gcc', ['-O0', '-g', '--coverage', '-DCAT_VERIF', '-I' + os.path.join(REPO, 'src'), '-I' + HARN], prog, q, out, extra)
+        r = subprocess.run(cmd, capture_output=True, text=True)
+        if r.returncode: return None
+        info = json.loads(subprocess.run([out, '--info', '--tier', tier], capture_output=True, text=True).stdout)
+        to = info['sweep'] + min(info['random'], max_random)
+        subprocess.run([out, '--seed', str(seed), '--tier', tier, '--san', '--to', str(to), '--out', os.path.join(d, 'o.json')], capture_output=True, text=True, timeout=3600)
+        subprocess.run(['gcov', '-b', 'chk-cat.gcda'], capture_output=True, text=True, cwd=d)
+        f = os.path.join(d, 'cat.c.gcov')
+        if not os.path.exists(f): return None
+        lines = {}
+        for l in open(f, errors='replace'):
+            parts = l.split(':', 2)
+            if len(parts) < 3: continue
+            cnt, no = parts[0].strip(), parts[1].strip()
+            if not no.isdigit() or cnt == '-': continue
+            lines[int(no)] = 0 if cnt.startswith('#') or cnt.startswith('=') else 1
+        return lines
+    with ThreadPoolExecutor(NCPU) as ex:
+        res = [r for r in ex.map(one, progs) if r]
+    if not res: return {'gcov': 'unavailable'}
+    allno = sorted(set().union(*[set(r) for r in res]))
+    hit = [n for n in allno if any(r.get(n) for r in res)]
+    miss = [n for n in allno if n not in set(hit)]
+    shutil.rmtree(gdir, ignore_errors=True)
+    return {'cat_c_line_coverage': {'executable_lines': len(allno), 'executed': len(hit), 'percent': round(100.0 * len(hit) / max(1, len(allno)), 2), 'unreached_line_numbers': miss[:200], 'programs_replayed_on_gcov_build': len(res)}}
+
 ASSUME = ['descriptors stay inside the supported domain of the property quantifier (DESIGN.md 3.2)',
           'the CAT_VERIF hook only reports phase/dequeue/finish and does not change behaviour',
           'gcc -O1 build of cat.c behaves like the shipped build for defined behaviour']
@@ -311,6 +344,8 @@ def do_check(pid, tier):
     agg = run_shards(variants, tier, seed, os.path.join(bdir, 'work'), os.path.join(ROOT, 'evidence', 'replay'), scale=cfg.get('scale', {}).get(tier, 1))
     rule = run_info(variants[0], tier).get('rule', 'see DESIGN.md section 5, ' + pid)
     shutil.rmtree(os.path.join(bdir, 'work'), ignore_errors=True)
+    if tier == 'thorough':
+        extra_cov = dict(extra_cov or {}); extra_cov.update(gcov_coverage(bdir, [(p, caps[0], cfg.get('extra', [])) for p, caps in cfg['progs']], seed, 'quick'))
     evals = sum(agg.counters.get(k, 0) for k in cfg['evaluations_from']) if 'evaluations_from' in cfg else None
     report_and_exit(pid, tier, seed, cfg['level'], agg, t0, cfg.get('floors', {}), rule, ASSUME + cfg.get('assume', []), extra_cov=extra_cov, evaluations=evals)
 
@@ -442,6 +477,7 @@ def c03_custom(pid, tier, seed, t0):
         for k, v in agg.foreign.items(): total.foreign[k] = total.foreign.get(k, 0) + v
     extra = {'sanitizer_builds': used, 'replayed_generators': sorted({p for p, _, _, _ in C03_REPLAY})}
     if thorough:
+        extra.update(gcov_coverage(bdir, [(p, caps[0], ex) for p, caps, ex, _ in C03_REPLAY], seed, 'quick'))
         extra.update(c03_memcheck(bdir, seed, viols, rdir))
         extra.update(c03_fuzz(bdir, seed, viols, rdir))
     rule = run_info(sets[0][1][0], tier).get('rule', '')
